@@ -293,7 +293,7 @@ theorem isUuid_chars {s : List Char} (h : isUuid s = true) : ∀ c ∈ s, isHexL
   obtain ⟨a9, e9, -, c9⟩ := hexRun_some k9
   rw [e1, dash_some k2, e3, dash_some k4, e5, dash_some k6, e7, dash_some k8, e9]
   intro c hc
-  simp only [mem_append, mem_cons, append_nil, not_mem_nil, or_false] at hc
+  simp only [mem_append, mem_cons, append_nil] at hc
   rcases hc with hc | rfl | hc | rfl | hc | rfl | hc | rfl | hc
   · exact Or.inl (c1 c hc)
   · exact Or.inr rfl
